@@ -1024,6 +1024,9 @@ Proof.
   split; [exact E0|]. split; [exact E1|]. split; [exact E2|]. split; [exact E3|]. split; [reflexivity|exact Hfin].
 Qed.
 
+Lemma Ok_inj {A} : forall a b : A, Ok a = Ok b -> a = b.
+Proof. intros a b H. congruence. Qed.
+
 Lemma add_newline_ends : forall nl c, bends nl (add_newline nl c) = true.
 Proof.
   intros nl c. unfold add_newline. destruct (bends nl c) eqn:E; [exact E|].
@@ -1095,21 +1098,50 @@ Lemma text_newline_is_model_newline : forall t le encoding1 nl0 le_out newline_b
   encode_newline nl0 encoding1 = Ok newline_b ->
   exists e eb lename, encoding1 = WStr e /\ c_enc ascii e = Some eb /\
     In lename (map fst GenText.newline_formats) /\
+    le_out = WStr (ascii_text lename) /\
+    (declared_newline le <> None -> le_out = le) /\
     get_newline_for_type lename (Some eb) = Ok (strip_bom newline_b (enc1_name encoding1)).
 Proof.
   intros t le encoding1 nl0 le_out newline_b Hc He.
-  assert (Hk : exists lename nl, assoc_get beq lename GenText.newline_formats = Some nl /\ nl0 = inl nl).
+  assert (Hk : exists lename nl, assoc_get beq lename GenText.newline_formats = Some nl /\ nl0 = inl nl /\
+                                 le_out = WStr (ascii_text lename) /\ (declared_newline le <> None -> le_out = le)).
   { unfold choose_newline in Hc. destruct (declared_newline le) as [nl|] eqn:Ed.
     - unfold declared_newline in Ed. destruct le; try discriminate Ed.
-      destruct (c_enc ascii t0) as [lename|]; [|discriminate Ed]. inversion Hc. eauto.
-    - destruct (WriterFacts.guess_text_cases t) as [Eg|Eg]; rewrite Eg in Hc; inversion Hc; subst.
-      + exists GenText.le_dos, (nl_text GenText.le_dos). split; [vm_compute|]; reflexivity.
-      + exists GenText.le_unix, (nl_text GenText.le_unix). split; [vm_compute|]; reflexivity. }
-  destruct Hk as (lename & nl & Hnl & ->). cbn [encode_newline] in He.
+      destruct (c_enc ascii t0) as [lename|] eqn:Ec; [|discriminate Ed]. apply enc_ascii_spec in Ec.
+      destruct Ec as [-> _]. apply Ok_inj in Hc. injection Hc as <- <-. exists lename, nl. auto.
+    - destruct (WriterFacts.guess_text_cases t) as [Eg|Eg]; rewrite Eg in Hc; apply Ok_inj in Hc;
+        injection Hc as <- <-.
+      + exists GenText.le_dos, (nl_text GenText.le_dos).
+        split; [vm_compute; reflexivity|]. split; [reflexivity|]. split; [reflexivity|congruence].
+      + exists GenText.le_unix, (nl_text GenText.le_unix).
+        split; [vm_compute; reflexivity|]. split; [reflexivity|]. split; [reflexivity|congruence]. }
+  destruct Hk as (lename & nl & Hnl & -> & Hlo & Hdecl). cbn [encode_newline] in He.
   apply encode_dyn_ok in He. destruct He as (e & eb & -> & Heb & Hpy).
   exists e, eb, lename. split; [reflexivity|]. split; [exact Heb|]. split.
   - eapply TextFacts.assoc_get_beq_in. exact Hnl.
-  - unfold get_newline_for_type, enc_or_ascii. rewrite Hnl, Hpy. cbn [bind enc1_name]. rewrite Heb. reflexivity.
+  - split; [exact Hlo|]. split; [exact Hdecl|].
+    unfold get_newline_for_type, enc_or_ascii. rewrite Hnl, Hpy. cbn [bind enc1_name]. rewrite Heb. reflexivity.
+Qed.
+
+(* 5'. text sections (preamble, meta): the content ends with the newline of the line-ending kind named in the
+   header (the declared one, else the one detected on the first line), encoded in the section's effective
+   encoding (explicit argument, else the innermost container's), BOM stripped *)
+Theorem C02_text_section_newline : forall s t indent le enc inherit body le_out,
+  prepare_content s (CText t) indent le enc inherit = Ok (body, le_out) ->
+  exists e eb lename newline,
+    eff_enc s enc inherit = Ok (WStr e) /\ c_enc ascii e = Some eb /\
+    In lename (map fst GenText.newline_formats) /\
+    le_out = WStr (ascii_text lename) /\ (declared_newline le <> None -> le_out = le) /\
+    get_newline_for_type lename (Some eb) = Ok newline /\
+    newline <> [] /\ TextFacts.unbordered newline /\
+    bends newline body = true.
+Proof.
+  intros s t indent le enc inherit body le_out H.
+  destruct (C02_content_ends_with_newline _ _ _ _ _ _ _ _ H) as (e1 & nl0 & nb & H1 & H2 & H3 & H4).
+  destruct (text_newline_is_model_newline _ _ _ _ _ _ H2 H3) as (e & eb & lename & -> & Heb & Hin & Hlo & Hd & Hg).
+  exists e, eb, lename, (strip_bom nb (enc1_name (WStr e))).
+  destruct (TextFacts.model_newlines_unbordered _ _ _ Hg) as [Hne Hu].
+  repeat (split; [assumption|]). exact H4.
 Qed.
 
 (* 6. indentation: ASCII spaces are put in front of every line AFTER encoding and newline termination;
@@ -1146,7 +1178,7 @@ Theorem C02_preamble_indent : forall s t k le enc inherit body le_out, (0 < k)%Z
   prepare_content s (CText t) (WInt k) le enc inherit = Ok (body, le_out) ->
   exists e eb lename newline content_b lines,
     eff_enc s enc inherit = Ok (WStr e) /\ c_enc ascii e = Some eb /\
-    In lename (map fst GenText.newline_formats) /\
+    In lename (map fst GenText.newline_formats) /\ le_out = WStr (ascii_text lename) /\
     get_newline_for_type lename (Some eb) = Ok newline /\
     py_encode t eb = Ok content_b /\
     split_lines (add_newline newline content_b) newline true = Ok lines /\
@@ -1157,9 +1189,9 @@ Proof.
   intros s t k le enc inherit body le_out Hk H.
   destruct (C02_indent_every_line _ _ _ _ _ _ _ _ Hk H)
     as (e1 & nl0 & nb & cb & lines & H1 & H2 & H3 & H4 & H5 & H6 & H7 & H8).
-  destruct (text_newline_is_model_newline _ _ _ _ _ _ H2 H3) as (e & eb & lename & -> & Heb & Hin & Hg).
+  destruct (text_newline_is_model_newline _ _ _ _ _ _ H2 H3) as (e & eb & lename & -> & Heb & Hin & Hlo & _ & Hg).
   exists e, eb, lename, (strip_bom nb (enc1_name (WStr e))), cb, lines.
-  split; [exact H1|]. split; [exact Heb|]. split; [exact Hin|]. split; [exact Hg|].
+  split; [exact H1|]. split; [exact Heb|]. split; [exact Hin|]. split; [exact Hlo|]. split; [exact Hg|].
   split; [cbn [encode_content] in H4; unfold encode_dyn in H4; rewrite Heb in H4; exact H4|].
   split; [exact H5|]. split; [exact H6|]. split; [|exact H8].
   apply H7. apply (TextFacts.model_newlines_unbordered _ _ _ Hg).
@@ -1347,9 +1379,6 @@ Qed.
 Lemma Z_to_dec_ascii : forall z, Forall ascii_byte (Z_to_dec z).
 Proof. intros z. apply spec_val_ascii. apply Z_to_dec_spec_val. Qed.
 
-Lemma Ok_inj {A} : forall a b : A, Ok a = Ok b -> a = b.
-Proof. intros a b H. congruence. Qed.
-
 Lemma Forall_app5 {A} (P : A -> Prop) : forall a b c d e,
   Forall P a -> Forall P b -> Forall P c -> Forall P d -> Forall P e -> Forall P (a ++ b ++ c ++ d ++ e).
 Proof. intros. repeat (apply Forall_app; split); assumption. Qed.
@@ -1389,3 +1418,564 @@ Qed.
 
 Theorem C02_json_ascii : forall j d, floats_ascii j -> json_dump j = Ok d -> Forall ascii_byte d.
 Proof. intros j d. apply dump_ascii. Qed.
+
+(* ================================================================================================ *)
+(** * 8. Section ids: every accepted call writes one header whose id is one of the nine legal ids, at a
+      place the generated hierarchy table allows (order part: C09, WriterFacts) *)
+
+Definition container_targets : list (bytes * nat) :=
+  [(B "change", GenText.writer_level_change); (B "file", GenText.writer_level_file)].
+
+(* an accepted call is exactly one accepted section write *)
+Lemma do_call_ok_cases : forall c s s', do_call c s = (s', Ok tt) ->
+  (exists name level enc extra, In (name, level) container_targets /\
+     new_container_section name level enc extra s = (s', Ok tt) /\
+     WriterFacts.target s c = build_id (level - 1) name) \/
+  (exists name content le enc ind wle inh extra, In name WriterFacts.content_names /\
+     new_content_section name content le enc ind wle inh extra s = (s', Ok tt) /\
+     WriterFacts.target s c = build_id (cur_level s) name).
+Proof.
+  intros c s s' H.
+  assert (Hno : forall (e : exn), @lift unit (Err e) s = (s', Ok tt) -> False).
+  { intros e Hx. unfold lift in Hx. inversion Hx. }
+  destruct c as [en|en|text enc ind le mt|md enc fmt|content dt enc le]; cbn [do_call WriterFacts.target] in *.
+  - left. exists (B "change"), GenText.writer_level_change, en, []. split; [left; reflexivity|]. split; [exact H|reflexivity].
+  - left. exists (B "file"), GenText.writer_level_file, en, []. split; [right; left; reflexivity|]. split; [exact H|reflexivity].
+  - destruct text; try (exfalso; eapply Hno; eassumption).
+    rewrite WriterFacts.bind_lift in H.
+    destruct (match mt with WNone => Ok true | _ => _ end) as [mok|e1]; [|inversion H].
+    destruct (negb mok); [exfalso; eapply Hno; eassumption|].
+    right. do 8 eexists. split; [|split; [exact H|rewrite Nat.add_sub; reflexivity]]. cbn; auto.
+  - destruct md; try (exfalso; eapply Hno; eassumption).
+    destruct (negb (wv_truthy (WDict j))); [exfalso; eapply Hno; eassumption|].
+    rewrite WriterFacts.bind_lift in H.
+    destruct (in_strset _ _) as [fok|e1]; [|inversion H].
+    destruct (negb fok); [exfalso; eapply Hno; eassumption|].
+    rewrite WriterFacts.bind_lift in H.
+    destruct (json_dump j) as [d|e1]; [|inversion H].
+    right. do 8 eexists. split; [|split; [exact H|rewrite Nat.add_sub; reflexivity]]. cbn; auto.
+  - destruct content; try (exfalso; eapply Hno; eassumption).
+    rewrite WriterFacts.bind_lift in H.
+    destruct (match dt with WNone => Ok true | _ => _ end) as [tok|e1]; [|inversion H].
+    destruct (negb tok); [exfalso; eapply Hno; eassumption|].
+    right. do 8 eexists. split; [|split; [exact H|rewrite Nat.add_sub; reflexivity]]. cbn; auto.
+Qed.
+
+Lemma level_of_le3 : forall p, WriterFacts.level_of p <= 3.
+Proof. intros p. unfold WriterFacts.level_of. repeat destruct (in_ids p _); lia. Qed.
+
+Theorem C02_ids_legal : forall s c s', WriterFacts.reachable s -> do_call c s = (s', Ok tt) ->
+  exists p dots name pairs rest,
+    w_prev s = Some p /\ In p WriterFacts.ids /\
+    WriterFacts.target s c = build_id dots name /\ dots <= 3 /\ In name HeaderFacts.spec_names /\
+    In (WriterFacts.target s c) WriterFacts.ids /\
+    In (WriterFacts.target s c) (WriterFacts.table p) /\
+    w_prev s' = Some (WriterFacts.target s c) /\
+    w_out s' = w_out s ++ (B "#" ++ WriterFacts.target s c ++ B ":" ++ header_tail pairs ++ [x0a]) ++ rest.
+Proof.
+  intros s c s' Hs H.
+  destruct (WriterFacts.C09_state_shape s Hs) as (p & Hp & Hpid & Hlen & Hcl).
+  destruct (WriterFacts.C09_accept_order s c s' Hs H) as (p' & Hp' & Htab).
+  rewrite Hp in Hp'. inversion Hp'; subst p'. clear Hp'.
+  pose proof (WriterFacts.C09_accept_prev s c s' Hs H) as Hprev.
+  assert (Hs' : WriterFacts.reachable s') by (eapply WriterFacts.reachable_step; eauto).
+  destruct (WriterFacts.C09_state_shape s' Hs') as (q & Hq & Hqid & _ & _).
+  rewrite Hprev in Hq. inversion Hq; subst q. clear Hq.
+  assert (Hne : w_stack s <> []) by (apply WriterFacts.Inv_stack, WriterFacts.reachable_inv; exact Hs).
+  destruct (do_call_ok_cases c s s' H) as
+    [(name & level & enc & extra & Hin & Hc & Ht)|(name & content & le & enc & ind & wle & inh & extra & Hin & Hc & Ht)].
+  - assert (Hl : 1 <= level /\ level - 1 <= 3 /\ In name HeaderFacts.spec_names).
+    { destruct Hin as [E|[E|[]]]; inversion E; subst; (split; [|split]);
+        try (unfold GenText.writer_level_change, GenText.writer_level_file; lia); cbn; auto 10. }
+    destruct Hl as (Hl1 & Hl3 & Hname).
+    rewrite WriterFacts.ncs_eq in Hc by assumption.
+    destruct (validate_section s _) as [[]|e]; [|inversion Hc].
+    destruct (render_header _ _) as [h|e] eqn:Eh; [|inversion Hc]. cbv zeta in Hc.
+    apply C02_header_shape in Eh. destruct Eh as (pairs & _ & ->).
+    exists p, (level - 1), name, pairs, []. rewrite <- Ht in *.
+    repeat (split; [first [assumption|reflexivity]|]). inversion Hc; subst s'. cbn [w_out]. rewrite app_nil_r. reflexivity.
+  - apply C02_length_exact in Hc. destruct Hc as (body & le_out & h & _ & Eh & _ & Ho & _ & _).
+    apply C02_header_shape in Eh. destruct Eh as (pairs & _ & ->).
+    exists p, (cur_level s), name, pairs, body. rewrite <- Ht in *.
+    assert (Hname : In name HeaderFacts.spec_names).
+    { unfold WriterFacts.content_names in Hin. cbn [In] in Hin. destruct Hin as [<-|[<-|[<-|[]]]]; cbn; auto 10. }
+    assert (Hd : cur_level s <= 3) by (rewrite Hcl; apply level_of_le3).
+    repeat (split; [first [assumption|reflexivity]|]). exact Ho.
+Qed.
+
+Example nine_ids : length WriterFacts.ids = 9 /\ NoDup WriterFacts.ids.
+Proof. split; [reflexivity|]. apply HeaderFacts.nodup_b_sound. vm_compute. reflexivity. Qed.
+
+(* ================================================================================================ *)
+(** * 9. Call level: the header written by every accepted call is in the spec grammar, parses, and its
+      length option reads back as the exact number of content bytes that follow *)
+
+Lemma assoc_set_keys_in {V} : forall k (v : V) o x,
+  In x (map fst (assoc_set beq k v o)) -> x = k \/ In x (map fst o).
+Proof.
+  intros k v. induction o as [|[k' v'] t IH]; intros x H; cbn [assoc_set] in H.
+  - cbn in H. destruct H as [<-|[]]. left. reflexivity.
+  - destruct (beq k k'); cbn [map fst In] in *.
+    + right. exact H.
+    + destruct H as [H|H]; [right; left; exact H|]. destruct (IH x H); [left|right; right]; assumption.
+Qed.
+
+Lemma assoc_set_nodup {V} : forall k (v : V) o, NoDup (map fst o) -> NoDup (map fst (assoc_set beq k v o)).
+Proof.
+  intros k v. induction o as [|[k' v'] t IH]; intros H; cbn [assoc_set].
+  - cbn. constructor; [intros []|constructor].
+  - cbn [map fst] in H. inversion H as [|? ? Hn Hnd]; subst.
+    destruct (beq k k') eqn:E; cbn [map fst].
+    + constructor; assumption.
+    + constructor; [|apply IH; exact Hnd]. intros Hin. apply assoc_set_keys_in in Hin.
+      destruct Hin as [->|Hin]; [|contradiction].
+      rewrite (proj2 (HeaderFacts.beq_spec k k) eq_refl) in E. discriminate.
+Qed.
+
+Lemma assoc_set_good : forall k v o, HeaderFacts.spec_key k -> good_value v ->
+  Forall good_opt o -> Forall good_opt (assoc_set beq k v o).
+Proof.
+  intros k v o Hk Hv. induction o as [|[k' v'] t IH]; intros H; cbn [assoc_set].
+  - constructor; [split; assumption|constructor].
+  - inversion H as [|? ? [Hk' Hv'] Ht]; subst. cbn [fst snd] in *. destruct (beq k k').
+    + constructor; [split; assumption|exact Ht].
+    + constructor; [split; assumption|apply IH; exact Ht].
+Qed.
+
+Lemma key_spec : forall s, key_ok (B s) = true -> HeaderFacts.spec_key (B s).
+Proof. intros s H. apply HeaderFacts.spec_key_iff. exact H. Qed.
+
+Lemma content_opts_good : forall body le_out enc ind wle key v,
+  small_int (Z.of_nat (length body)) -> good_value le_out -> good_value enc -> good_value ind ->
+  HeaderFacts.spec_key key -> good_value v ->
+  Forall good_opt (content_opts body le_out enc ind wle [(key, v)]) /\
+  NoDup (map fst (content_opts body le_out enc ind wle [(key, v)])).
+Proof.
+  intros body le_out enc ind wle key v Hl Hle Henc Hind Hkey Hv. unfold content_opts, dict_set.
+  assert (H0 : Forall good_opt [(key, v)]) by (constructor; [split; assumption|constructor]).
+  assert (N0 : NoDup (map fst [(key, v)])) by (cbn; constructor; [intros []|constructor]).
+  destruct wle; split;
+    repeat first [ apply assoc_set_nodup | apply assoc_set_good; [apply key_spec; reflexivity| |] ];
+    try assumption; constructor; exact Hl.
+Qed.
+
+(* every codec spelling the model knows is in the option-value grammar (and not of integer form) *)
+Lemma spellings_b : forallb (fun r => val_ok (GenCodecs.cr_spelling r)) GenCodecs.rows = true.
+Proof. vm_compute. reflexivity. Qed.
+
+Definition enc_good (v : wv) : Prop :=
+  v = WNone \/ exists eb r, v = WStr (ascii_text eb) /\ find_row eb GenCodecs.rows = Some r.
+
+Lemma enc_good_value : forall v, enc_good v -> good_value v.
+Proof.
+  intros v [->|(eb & r & -> & Hr)]; [constructor|]. constructor. apply HeaderFacts.spec_val_iff.
+  apply TextFacts.find_row_some in Hr. destruct Hr as [Hin ->].
+  pose proof spellings_b as Hb. rewrite forallb_forall in Hb. exact (Hb r Hin).
+Qed.
+
+Lemma in_strset_true : forall v set, in_strset v set = Ok true -> exists x, In x set /\ v = WStr (ascii_text x).
+Proof.
+  intros v set H. destruct v; cbn [in_strset] in H; try discriminate H.
+  injection H as H. apply existsb_exists in H. destruct H as (x & Hx & Ht).
+  apply WriterFacts.teq_true_eq in Ht. subst t. eauto.
+Qed.
+
+Lemma choice_good : forall v set mok, (forall x, In x set -> In x choice_values) ->
+  match v with WNone => Ok true | v' => in_strset v' set end = Ok mok -> negb mok = false -> good_value v.
+Proof.
+  intros v set mok Hsub H Hm. destruct mok; [|discriminate Hm].
+  destruct v; try (constructor; fail);
+    (apply in_strset_true in H; destruct H as (x & Hx & E); try discriminate E;
+     inversion E; subst; apply choice_values_spec; apply Hsub; exact Hx).
+Qed.
+
+Lemma newline_names_b : forallb val_ok (map fst GenText.newline_formats) = true.
+Proof. vm_compute. reflexivity. Qed.
+
+Lemma le_name_good : forall x, In x (map fst GenText.newline_formats) -> good_value (WStr (ascii_text x)).
+Proof.
+  intros x H. constructor. apply HeaderFacts.spec_val_iff.
+  pose proof newline_names_b as Hb. rewrite forallb_forall in Hb. auto.
+Qed.
+
+Lemma le_guess_names : In GenText.le_dos (map fst GenText.newline_formats) /\
+                       In GenText.le_unix (map fst GenText.newline_formats).
+Proof.
+  split; apply HeaderFacts.in_ids_In; vm_compute; reflexivity.
+Qed.
+
+(* the line_endings value that goes into the header is always one of the generated names (or the caller's
+   declared one, which is one of them) *)
+Lemma le_out_good : forall content le encoding1 nl0 le_out,
+  choose_newline content le encoding1 = Ok (nl0, le_out) -> good_value le_out.
+Proof.
+  intros content le encoding1 nl0 le_out H. unfold choose_newline in H.
+  destruct (declared_newline le) as [nl|] eqn:Ed.
+  - assert (Hle : good_value le).
+    { unfold declared_newline in Ed. destruct le; try discriminate Ed.
+      destruct (c_enc ascii t) as [lename|] eqn:Ec; [|discriminate Ed].
+      apply enc_ascii_spec in Ec. destruct Ec as [-> _]. apply le_name_good.
+      eapply TextFacts.assoc_get_beq_in. exact Ed. }
+    destruct content; [inversion H; subst; exact Hle|]. step_bind H. inversion H; subst. exact Hle.
+  - destruct content as [t|b].
+    + destruct (WriterFacts.guess_text_cases t) as [Eg|Eg]; rewrite Eg in H; apply Ok_inj in H;
+        apply (f_equal snd) in H; cbn [snd] in H; rewrite <- H; apply le_name_good; apply le_guess_names.
+    + step_bind H. step_bind H. apply Ok_inj in H. apply (f_equal snd) in H. cbn [snd] in H. rewrite <- H. clear H.
+      unfold guess_line_endings_bytes in E0. step_bind E0. step_bind E0.
+      destruct (bfind _ b); [destruct (bends _ _)|]; apply Ok_inj in E0; rewrite <- E0; cbn [fst];
+        apply le_name_good; apply le_guess_names.
+Qed.
+
+Lemma small_int_of_nat : forall n, (N.of_nat n < 10 ^ 4300)%N -> small_int (Z.of_nat n).
+Proof. intros n H. apply small_int_bound. rewrite <- nat_N_Z, Zabs2N.id. exact H. Qed.
+
+Lemma StronglySorted_map_keys : forall so,
+  StronglySorted key_le so -> StronglySorted (@key_le bytes) (map spec_pair_of so).
+Proof.
+  intros so H. induction H as [|a l S IH Ha]; cbn [map]; constructor; [exact IH|].
+  apply Forall_forall. intros x Hx. apply in_map_iff in Hx. destruct Hx as (y & <- & Hy).
+  rewrite Forall_forall in Ha. exact (Ha y Hy).
+Qed.
+
+Lemma render_header_round_trip_sorted : forall valid dots name opts h,
+  dots <= 3 -> In name HeaderFacts.spec_names -> In (build_id dots name) valid ->
+  NoDup (map fst opts) -> Forall good_opt opts ->
+  render_header (build_id dots name) opts = Ok h ->
+  exists line ps opts',
+    h = line ++ [x0a] /\ HeaderFacts.spec_header line dots name ps /\ StronglySorted key_le ps /\
+    parse_header valid line = HOk dots name (build_id dots name) opts' /\
+    forall k, assoc_get beq k opts' = match assoc_get beq k opts with Some v => read_back v | None => None end.
+Proof.
+  intros valid dots name opts h Hd Hn Hv Hnd Hg Hh.
+  destruct (C02_header_round_trip valid dots name opts Hd Hn Hv Hnd Hg) as (line & ps & opts' & Hr & -> & Hs & Hp & Hk).
+  exists line, (map spec_pair_of (present (sort_opts opts))), opts'.
+  split; [congruence|]. split; [exact Hs|]. split; [|split; assumption].
+  apply StronglySorted_map_keys. apply present_sort_sorted.
+Qed.
+
+Lemma content_names_spec : forall name, In name WriterFacts.content_names -> In name HeaderFacts.spec_names.
+Proof. intros name H. unfold WriterFacts.content_names in H. cbn [In] in H. destruct H as [<-|[<-|[<-|[]]]]; cbn; auto 10. Qed.
+
+Lemma ncontent_round_trip : forall name content le enc ind wle inh key v s s' valid,
+  In name WriterFacts.content_names -> cur_level s <= 3 ->
+  In (build_id (cur_level s) name) valid ->
+  new_content_section name content le enc ind wle inh [(key, v)] s = (s', Ok tt) ->
+  good_value enc -> good_value ind -> HeaderFacts.spec_key key -> good_value v ->
+  (N.of_nat (length (w_out s')) < 10 ^ 4300)%N ->
+  exists line ps opts' body,
+    w_out s' = w_out s ++ (line ++ [x0a]) ++ body /\
+    HeaderFacts.spec_header line (cur_level s) name ps /\ StronglySorted key_le ps /\
+    parse_header valid line = HOk (cur_level s) name (build_id (cur_level s) name) opts' /\
+    assoc_get beq (B "length") opts' = Some (VInt (Z.of_nat (length body))).
+Proof.
+  intros name content le enc ind wle inh key v s s' valid Hname Hlvl Hvalid H Henc Hind Hkey Hv Hsize.
+  apply C02_length_exact in H. destruct H as (body & le_out & h & Hprep & Hh & Hlen & Ho & _ & _).
+  assert (Hle : good_value le_out).
+  { apply prepare_content_unfold in Hprep. destruct Hprep as (e1 & nl0 & nb & cb & _ & Hc & _).
+    eapply le_out_good. exact Hc. }
+  assert (Hsmall : small_int (Z.of_nat (length body))).
+  { apply small_int_of_nat. rewrite Ho, !app_length in Hsize. set (P := (10 ^ 4300)%N) in *. lia. }
+  destruct (content_opts_good body le_out enc ind wle key v Hsmall Hle Henc Hind Hkey Hv) as [Hg Hnd].
+  destruct (render_header_round_trip_sorted valid _ _ _ h Hlvl (content_names_spec _ Hname) Hvalid Hnd Hg Hh)
+    as (line & ps & opts' & -> & Hs & Hso & Hp & Hk).
+  exists line, ps, opts', body. split; [exact Ho|]. split; [exact Hs|]. split; [exact Hso|]. split; [exact Hp|].
+  rewrite Hk, Hlen. reflexivity.
+Qed.
+
+Lemma ncs_round_trip : forall name level enc extra s s' valid,
+  w_stack s <> [] -> 1 <= level -> level - 1 <= 3 -> In name HeaderFacts.spec_names ->
+  In (build_id (level - 1) name) valid ->
+  new_container_section name level enc extra s = (s', Ok tt) -> good_value enc ->
+  Forall good_opt extra -> NoDup (map fst extra) ->
+  exists line ps opts',
+    w_out s' = w_out s ++ (line ++ [x0a]) ++ [] /\
+    HeaderFacts.spec_header line (level - 1) name ps /\ StronglySorted key_le ps /\
+    parse_header valid line = HOk (level - 1) name (build_id (level - 1) name) opts' /\
+    forall k, assoc_get beq k opts' =
+              match assoc_get beq k (dict_set "encoding" enc extra) with Some v => read_back v | None => None end.
+Proof.
+  intros name level enc extra s s' valid Hne Hl1 Hl3 Hname Hvalid H Henc Hgx Hndx.
+  rewrite WriterFacts.ncs_eq in H by assumption.
+  destruct (validate_section s _) as [[]|e]; [|inversion H].
+  destruct (render_header _ _) as [h|e] eqn:Eh; [|inversion H]. cbv zeta in H.
+  assert (Hg : Forall good_opt (dict_set "encoding" enc extra)).
+  { unfold dict_set. apply assoc_set_good; [apply key_spec; reflexivity|exact Henc|exact Hgx]. }
+  assert (Hnd : NoDup (map fst (dict_set "encoding" enc extra))).
+  { unfold dict_set. apply assoc_set_nodup. exact Hndx. }
+  destruct (render_header_round_trip_sorted valid _ _ _ h Hl3 Hname Hvalid Hnd Hg Eh)
+    as (line & ps & opts' & -> & Hs & Hso & Hp & Hk).
+  exists line, ps, opts'. split; [inversion H; subst s'; cbn [w_out]; rewrite app_nil_r; reflexivity|].
+  split; [exact Hs|]. split; [exact Hso|]. split; [exact Hp|exact Hk].
+Qed.
+
+(* arguments as in C01/C02's quantifier: encodings are codec names of the catalogue, indent is an int *)
+Definition indent_good (ind : option wv) : Prop :=
+  match ind with None => True | Some v => v = WNone \/ exists z, v = WInt z /\ small_int z end.
+Definition call_args_good (c : call) : Prop :=
+  match c with
+  | NewChange e | NewFile e => enc_good e
+  | WritePreamble _ e ind _ _ => enc_good e /\ indent_good ind
+  | WriteMeta _ e _ => enc_good e
+  | WriteDiff _ _ e _ => enc_good e
+  end.
+
+Lemma choice_sub_mimetypes : forall x, In x GenText.mimetypes -> In x choice_values.
+Proof. intros x H. unfold choice_values. apply in_or_app. right. apply in_or_app. left. exact H. Qed.
+Lemma choice_sub_meta_formats : forall x, In x GenText.meta_formats -> In x choice_values.
+Proof. intros x H. unfold choice_values. do 2 (apply in_or_app; right). apply in_or_app. left. exact H. Qed.
+Lemma choice_sub_diff_types : forall x, In x GenText.diff_types -> In x choice_values.
+Proof. intros x H. unfold choice_values. do 3 (apply in_or_app; right). apply in_or_app. left. exact H. Qed.
+
+Lemma default_indent_small : small_int GenText.default_indent.
+Proof. apply small_int_bound. vm_compute. reflexivity. Qed.
+
+Theorem C02_call_header_parses : forall s c s',
+  WriterFacts.reachable s -> do_call c s = (s', Ok tt) -> call_args_good c ->
+  (N.of_nat (length (w_out s')) < 10 ^ 4300)%N ->
+  exists p dots name line ps opts' body,
+    w_prev s = Some p /\ WriterFacts.target s c = build_id dots name /\
+    w_out s' = w_out s ++ (line ++ [x0a]) ++ body /\
+    HeaderFacts.spec_header line dots name ps /\ StronglySorted key_le ps /\
+    parse_header (WriterFacts.table p) line = HOk dots name (WriterFacts.target s c) opts' /\
+    ((body = [] /\ assoc_get beq (B "length") opts' = None) \/
+     assoc_get beq (B "length") opts' = Some (VInt (Z.of_nat (length body)))).
+Proof.
+  intros s c s' Hs H Hargs Hsize.
+  destruct (WriterFacts.C09_state_shape s Hs) as (p & Hp & Hpid & Hlen & Hcl).
+  destruct (WriterFacts.C09_accept_order s c s' Hs H) as (p' & Hp' & Htab).
+  rewrite Hp in Hp'. inversion Hp'; subst p'. clear Hp'.
+  assert (Hne : w_stack s <> []) by (apply WriterFacts.Inv_stack, WriterFacts.reachable_inv; exact Hs).
+  assert (Hd : cur_level s <= 3) by (rewrite Hcl; apply level_of_le3).
+  assert (Hno : forall (e : exn), @lift unit (Err e) s = (s', Ok tt) -> False).
+  { intros e Hx. unfold lift in Hx. inversion Hx. }
+  assert (Hcontent : forall name content le enc ind wle inh key v,
+            In name WriterFacts.content_names -> WriterFacts.target s c = build_id (cur_level s) name ->
+            new_content_section name content le enc ind wle inh [(key, v)] s = (s', Ok tt) ->
+            good_value enc -> good_value ind -> HeaderFacts.spec_key key -> good_value v ->
+            exists p dots name line ps opts' body,
+              w_prev s = Some p /\ WriterFacts.target s c = build_id dots name /\
+              w_out s' = w_out s ++ (line ++ [x0a]) ++ body /\
+              HeaderFacts.spec_header line dots name ps /\ StronglySorted key_le ps /\
+              parse_header (WriterFacts.table p) line = HOk dots name (WriterFacts.target s c) opts' /\
+              ((body = [] /\ assoc_get beq (B "length") opts' = None) \/
+               assoc_get beq (B "length") opts' = Some (VInt (Z.of_nat (length body))))).
+  { intros name content le enc ind wle inh key v Hname Ht Hc Henc Hind Hkey Hv.
+    rewrite Ht in Htab.
+    destruct (ncontent_round_trip _ _ _ _ _ _ _ _ _ _ _ _ Hname Hd Htab Hc Henc Hind Hkey Hv Hsize)
+      as (line & ps & opts' & body & Ho & Hsp & Hso & Hpa & Hl).
+    exists p, (cur_level s), name, line, ps, opts', body. rewrite Ht. repeat (split; [first [assumption|reflexivity]|]). right. exact Hl. }
+  destruct c as [en|en|text enc ind le mt|md enc fmt|content dt enc le]; cbn [do_call call_args_good] in *.
+  - cbn [WriterFacts.target] in *.
+    destruct (ncs_round_trip (B "change") GenText.writer_level_change en [] s s' _ Hne
+                ltac:(unfold GenText.writer_level_change; lia) ltac:(unfold GenText.writer_level_change; lia)
+                ltac:(cbn; auto 10) Htab H (enc_good_value _ Hargs) (Forall_nil _) (NoDup_nil _))
+      as (line & ps & opts' & Ho & Hsp & Hso & Hpa & Hl0).
+    assert (Hl : assoc_get beq (B "length") opts' = None).
+    { rewrite Hl0. unfold dict_set. cbn [assoc_set assoc_get]. change (beq (B "length") (B "encoding")) with false. reflexivity. }
+    exists p, (GenText.writer_level_change - 1), (B "change"), line, ps, opts', [].
+    repeat (split; [first [assumption|reflexivity]|]). left. split; [reflexivity|exact Hl].
+  - cbn [WriterFacts.target] in *.
+    destruct (ncs_round_trip (B "file") GenText.writer_level_file en [] s s' _ Hne
+                ltac:(unfold GenText.writer_level_file; lia) ltac:(unfold GenText.writer_level_file; lia)
+                ltac:(cbn; auto 10) Htab H (enc_good_value _ Hargs) (Forall_nil _) (NoDup_nil _))
+      as (line & ps & opts' & Ho & Hsp & Hso & Hpa & Hl0).
+    assert (Hl : assoc_get beq (B "length") opts' = None).
+    { rewrite Hl0. unfold dict_set. cbn [assoc_set assoc_get]. change (beq (B "length") (B "encoding")) with false. reflexivity. }
+    exists p, (GenText.writer_level_file - 1), (B "file"), line, ps, opts', [].
+    repeat (split; [first [assumption|reflexivity]|]). left. split; [reflexivity|exact Hl].
+  - destruct text; try (exfalso; eapply Hno; eassumption).
+    rewrite WriterFacts.bind_lift in H.
+    destruct (match mt with WNone => Ok true | _ => _ end) as [mok|e1] eqn:Emt; [|inversion H].
+    destruct (negb mok) eqn:Emok; [exfalso; eapply Hno; eassumption|].
+    destruct Hargs as [Henc Hind].
+    eapply Hcontent; try exact H.
+    + cbn; auto.
+    + cbn [WriterFacts.target]. rewrite Nat.add_sub. reflexivity.
+    + apply enc_good_value. exact Henc.
+    + destruct ind as [v|]; cbn [indent_good] in Hind.
+      * destruct Hind as [->|(z & -> & Hz)]; constructor. exact Hz.
+      * constructor. apply default_indent_small.
+    + apply key_spec. reflexivity.
+    + exact (choice_good mt GenText.mimetypes mok choice_sub_mimetypes Emt Emok).
+  - destruct md; try (exfalso; eapply Hno; eassumption).
+    destruct (negb (wv_truthy (WDict j))); [exfalso; eapply Hno; eassumption|].
+    rewrite WriterFacts.bind_lift in H.
+    destruct (in_strset _ _) as [fok|e1] eqn:Efmt; [|inversion H].
+    destruct (negb fok) eqn:Efok; [exfalso; eapply Hno; eassumption|].
+    rewrite WriterFacts.bind_lift in H.
+    destruct (json_dump j) as [d|e1]; [|inversion H].
+    eapply Hcontent; try exact H.
+    + cbn; auto.
+    + cbn [WriterFacts.target]. rewrite Nat.add_sub. reflexivity.
+    + apply enc_good_value. exact Hargs.
+    + constructor.
+    + apply key_spec. reflexivity.
+    + destruct fok; [|discriminate Efok]. apply in_strset_true in Efmt. destruct Efmt as (x & Hx & ->).
+      apply choice_values_spec. apply choice_sub_meta_formats. exact Hx.
+  - destruct content; try (exfalso; eapply Hno; eassumption).
+    rewrite WriterFacts.bind_lift in H.
+    destruct (match dt with WNone => Ok true | _ => _ end) as [tok|e1] eqn:Edt; [|inversion H].
+    destruct (negb tok) eqn:Etok; [exfalso; eapply Hno; eassumption|].
+    eapply Hcontent; try exact H.
+    + cbn; auto.
+    + cbn [WriterFacts.target]. rewrite Nat.add_sub. reflexivity.
+    + apply enc_good_value. exact Hargs.
+    + constructor.
+    + apply key_spec. reflexivity.
+    + exact (choice_good dt GenText.diff_types tok choice_sub_diff_types Edt Etok).
+Qed.
+
+(* the first header, written by the constructor *)
+Theorem C02_init_header : forall enc ver s0 valid,
+  writer_init enc ver = (s0, Ok tt) -> enc_good enc -> In (B "diffx") valid ->
+  exists line ps opts',
+    w_out s0 = line ++ [x0a] /\
+    HeaderFacts.spec_header line 0 (B "diffx") ps /\ StronglySorted key_le ps /\
+    parse_header valid line = HOk 0 (B "diffx") (B "diffx") opts' /\
+    assoc_get beq (B "version") opts' = Some (VStr GenText.writer_version) /\
+    assoc_get beq (B "encoding") opts' = read_back enc.
+Proof.
+  intros enc ver s0 valid H Henc Hvalid. unfold writer_init in H.
+  destruct (in_strset ver GenText.versions) as [[|]|e] eqn:Ev; try (inversion H; fail).
+  apply in_strset_true in Ev. destruct Ev as (x & Hx & ->).
+  assert (Hxv : x = GenText.writer_version).
+  { unfold GenText.versions in Hx. cbn [In] in Hx. destruct Hx as [<-|[]]. reflexivity. }
+  subst x.
+  destruct (choice_values_spec GenText.writer_version) as (_ & Hgv & Hrb).
+  { unfold choice_values. do 4 (apply in_or_app; right). left. reflexivity. }
+  destruct (ncs_round_trip (B "diffx") GenText.writer_level_main enc
+              [(B "version", WStr (ascii_text GenText.writer_version))]
+              {| w_out := []; w_stack := [enc]; w_prev := None |} s0 valid
+              ltac:(cbn; discriminate) ltac:(unfold GenText.writer_level_main; lia)
+              ltac:(unfold GenText.writer_level_main; lia) ltac:(cbn; auto 10) Hvalid H
+              (enc_good_value _ Henc)) as (line & ps & opts' & Ho & Hsp & Hso & Hpa & Hk).
+  { constructor; [|constructor]. split; [apply key_spec; reflexivity|exact Hgv]. }
+  { cbn. constructor; [intros []|constructor]. }
+  exists line, ps, opts'. cbn [w_out app] in Ho. rewrite app_nil_r in Ho.
+  split; [exact Ho|]. split; [exact Hsp|]. split; [exact Hso|]. split; [exact Hpa|].
+  rewrite !Hk. unfold dict_set. rewrite !(HeaderFacts.assoc_get_set beq HeaderFacts.beq_spec).
+  change (beq (B "version") (B "encoding")) with false. change (beq (B "encoding") (B "encoding")) with true.
+  cbv iota. cbn [assoc_get]. change (beq (B "version") (B "version")) with true. cbv iota.
+  split; [exact Hrb|reflexivity].
+Qed.
+
+(* ================================================================================================ *)
+(** * 10. Whole call sequences: every accepted call of a run contributes one section with the per-call
+       properties; rejected calls contribute nothing (C09) *)
+
+Section Trace.
+  Variable Pre : call -> Prop.
+  Variable Q : wstate -> call -> wstate -> Prop.
+  Inductive trace : wstate -> list call -> wstate -> Prop :=
+  | T_nil s : trace s [] s
+  | T_ok s c s' cs sf : do_call c s = (s', Ok tt) -> Q s c s' -> trace s' cs sf -> trace s (c :: cs) sf
+  | T_err s c e cs sf : do_call c s = (s, Err e) -> trace s cs sf -> trace s (c :: cs) sf.
+
+  Hypothesis HQ : forall s c s', WriterFacts.reachable s -> Pre c -> do_call c s = (s', Ok tt) -> Q s c s'.
+
+  Theorem run_calls_trace : forall cs s, WriterFacts.reachable s -> Forall Pre cs ->
+    trace s cs (snd (run_calls s cs)).
+  Proof.
+    induction cs as [|c cs IH]; intros s Hs Hpre; [constructor|].
+    inversion Hpre as [|? ? Hc Hcs]; subst.
+    cbn [run_calls]. destruct (do_call c s) as [s' r] eqn:E.
+    destruct (run_calls s' cs) as [rs f] eqn:Er. cbn [snd].
+    assert (Hf : f = snd (run_calls s' cs)) by (rewrite Er; reflexivity).
+    destruct r as [[]|e].
+    - eapply T_ok; [exact E|apply HQ; assumption|]. rewrite Hf. apply IH; [|exact Hcs].
+      eapply WriterFacts.reachable_step; eauto.
+    - pose proof (WriterFacts.C09_atomic s Hs c s' e E) as Es. subst s'.
+      eapply T_err; [exact E|]. rewrite Hf. apply IH; assumption.
+  Qed.
+End Trace.
+
+(* the unconditional part: ids, order, shape of every header of the stream *)
+Definition section_legal (s : wstate) (c : call) (s' : wstate) : Prop :=
+  exists p dots name pairs rest,
+    w_prev s = Some p /\ In p WriterFacts.ids /\
+    WriterFacts.target s c = build_id dots name /\ dots <= 3 /\ In name HeaderFacts.spec_names /\
+    In (WriterFacts.target s c) WriterFacts.ids /\
+    In (WriterFacts.target s c) (WriterFacts.table p) /\
+    w_prev s' = Some (WriterFacts.target s c) /\
+    w_out s' = w_out s ++ (B "#" ++ WriterFacts.target s c ++ B ":" ++ header_tail pairs ++ [x0a]) ++ rest.
+
+Theorem C02_stream_ids_legal : forall cs s, WriterFacts.reachable s ->
+  trace section_legal s cs (snd (run_calls s cs)).
+Proof.
+  intros cs s Hs. apply (run_calls_trace (fun _ => True)); [|exact Hs|].
+  - intros s1 c s1' Hr _ H. exact (C02_ids_legal s1 c s1' Hr H).
+  - apply Forall_forall. intros. exact I.
+Qed.
+
+(* with codec-name encodings and int indents: every header line of the stream is in the spec grammar,
+   has its options sorted by key, is accepted by the reader's header parser in the state the hierarchy table
+   prescribes, and its length option reads back as the number of content bytes that follow *)
+Definition section_parses (s : wstate) (c : call) (s' : wstate) : Prop :=
+  (N.of_nat (length (w_out s')) < 10 ^ 4300)%N ->
+  exists p dots name line ps opts' body,
+    w_prev s = Some p /\ WriterFacts.target s c = build_id dots name /\
+    w_out s' = w_out s ++ (line ++ [x0a]) ++ body /\
+    HeaderFacts.spec_header line dots name ps /\ StronglySorted key_le ps /\
+    parse_header (WriterFacts.table p) line = HOk dots name (WriterFacts.target s c) opts' /\
+    ((body = [] /\ assoc_get beq (B "length") opts' = None) \/
+     assoc_get beq (B "length") opts' = Some (VInt (Z.of_nat (length body)))).
+
+Theorem C02_stream_headers_parse : forall cs s, WriterFacts.reachable s -> Forall call_args_good cs ->
+  trace section_parses s cs (snd (run_calls s cs)).
+Proof.
+  intros cs s Hs Hpre. apply (run_calls_trace call_args_good); [|exact Hs|exact Hpre].
+  intros s1 c s1' Hr Hc H Hsize. exact (C02_call_header_parses s1 c s1' Hr H Hc Hsize).
+Qed.
+
+(* ================================================================================================ *)
+(** * 11. The header is the spec-side rendering of the key-sorted non-None options, whatever sorting
+       procedure one uses: the sorted list is unique *)
+
+Theorem C02_header_is_spec_rendering : forall dots name opts ps',
+  dots <= 3 -> In name HeaderFacts.spec_names -> NoDup (map fst opts) -> Forall good_opt opts ->
+  Permutation (map spec_pair_of (present opts)) ps' -> StronglySorted key_le ps' ->
+  render_header (build_id dots name) opts = Ok (HeaderFacts.render_header dots name ps' ++ [x0a]) /\
+  HeaderFacts.spec_header (HeaderFacts.render_header dots name ps') dots name ps'.
+Proof.
+  intros dots name opts ps' Hd Hn Hnd Hg Hperm Hsorted.
+  destruct (C02_header_round_trip [build_id dots name] dots name opts Hd Hn (or_introl eq_refl) Hnd Hg)
+    as (line & ps & opts' & Hr & Hps & Hs & _ & _).
+  assert (E : ps = ps').
+  { apply (sorted_perm_unique (@fst bytes bytes) bytes_leb bytes_leb_antisym).
+    - rewrite Hps. apply StronglySorted_map_keys. apply present_sort_sorted.
+    - exact Hsorted.
+    - rewrite Hps. eapply perm_trans; [|exact Hperm]. apply Permutation_map. apply Permutation_sym, present_sort_perm.
+    - rewrite Hps, map_map. cbn [spec_pair_of fst]. unfold present. apply NoDup_map_filter.
+      eapply Permutation_NoDup; [|exact Hnd]. apply Permutation_map. apply sort_opts_perm. }
+  subst ps'. destruct Hs as (H1 & H2 & H3 & H4). rewrite <- H4. split; [exact Hr|].
+  split; [exact H1|]. split; [exact H2|]. split; [exact H3|exact H4].
+Qed.
+
+(* ================================================================================================ *)
+(** * 12. A whole call: write_preamble with an indent, from the API call down to the bytes *)
+
+Theorem C02_preamble_call : forall s t enc k le mt s', (0 < k)%Z ->
+  do_call (WritePreamble (WStr t) enc (Some (WInt k)) le mt) s = (s', Ok tt) ->
+  exists e eb lename newline content_b lines h,
+    eff_enc s enc true = Ok (WStr e) /\ c_enc ascii e = Some eb /\
+    In lename (map fst GenText.newline_formats) /\
+    get_newline_for_type lename (Some eb) = Ok newline /\
+    py_encode t eb = Ok content_b /\
+    split_lines (add_newline newline content_b) newline true = Ok lines /\
+    concat lines = add_newline newline content_b /\
+    Forall (fun l => bends newline l = true) lines /\
+    let body := concat (map (fun l => repeat_b x20 (Z.to_nat k) ++ l) lines) in
+    render_header (build_id (cur_level s) (B "preamble"))
+      (content_opts body (WStr (ascii_text lename)) enc (WInt k) true [(B "mimetype", mt)]) = Ok h /\
+    w_out s' = w_out s ++ h ++ body.
+Proof.
+  intros s t enc k le mt s' Hk H. cbn [do_call] in H.
+  rewrite WriterFacts.bind_lift in H.
+  destruct (match mt with WNone => Ok true | _ => _ end) as [mok|e1]; [|inversion H].
+  destruct (negb mok); [inversion H|].
+  apply C02_length_exact in H. destruct H as (body & le_out & h & Hprep & Hh & _ & Ho & _ & _).
+  destruct (C02_preamble_indent _ _ _ _ _ _ _ _ Hk Hprep)
+    as (e & eb & lename & newline & cb & lines & H1 & H2 & H3 & H4 & H5 & H6 & H7 & H8 & H9 & H10).
+  exists e, eb, lename, newline, cb, lines, h. subst body le_out.
+  repeat (split; [assumption|]). cbv zeta. split; [exact Hh|exact Ho].
+Qed.
